@@ -28,6 +28,8 @@ type kFeat struct {
 	childIdx bool
 	// childLinks (needs places): a link collection owned by the plain child store (mgr.mplaces <-> places.mgrs)
 	childLinks bool
+	// extFirst: register the extended child store before the plain one
+	extFirst bool
 }
 
 type kPerson struct {
@@ -269,27 +271,40 @@ func newKitchen(label string, feat kFeat) *kitchen {
 	petsSym := k.people.AddFkSetSymbol("pets", k.pets)
 	k.pets.AddFkIndexCascadeDelete(ownerSym, petsSym)
 
-	k.mgr = world.NewStore(&world.Spec{Parent: k.people, ChildPath: []string{"mgr"}, Fields: []world.Field{
-		{Name: "name", Kind: world.KString}, {Name: "roles", Kind: world.KStringList}, {Name: "org", Kind: world.KStringP},
-		{Name: "lead", Kind: world.KBoolP, Child: true}}})
-	if feat.childIdx {
-		k.mgr.Spec.Fields = append(k.mgr.Spec.Fields, world.Field{Name: "title", Kind: world.KString, Child: true})
+	mkMgr := func() {
+		k.mgr = world.NewStore(&world.Spec{Parent: k.people, ChildPath: []string{"mgr"}, Fields: []world.Field{
+			{Name: "name", Kind: world.KString}, {Name: "roles", Kind: world.KStringList}, {Name: "org", Kind: world.KStringP},
+			{Name: "lead", Kind: world.KBoolP, Child: true}}})
+		if feat.childIdx {
+			k.mgr.Spec.Fields = append(k.mgr.Spec.Fields, world.Field{Name: "title", Kind: world.KString, Child: true})
+		}
+		k.people.GrantSymbols(k.mgr)
+		k.mgr.AddSymbol("lead", ast.NodeTypeBool)
+		if feat.childIdx {
+			k.mgr.AddUniqueIndex(k.mgr.AddSymbol("title", ast.NodeTypeString))
+		}
 	}
-	k.people.GrantSymbols(k.mgr)
-	k.mgr.AddSymbol("lead", ast.NodeTypeBool)
-	if feat.childIdx {
-		k.mgr.AddUniqueIndex(k.mgr.AddSymbol("title", ast.NodeTypeString))
+	mkProf := func() {
+		k.prof = world.NewStore(&world.Spec{Parent: k.people, ChildPath: []string{"prof"}, Extended: true, Fields: []world.Field{
+			{Name: "name", Kind: world.KString}, {Name: "roles", Kind: world.KStringList}, {Name: "org", Kind: world.KStringP},
+			{Name: "nick", Kind: world.KStringP, Child: true}}})
+		if feat.childIdx {
+			k.prof.Spec.Fields = append(k.prof.Spec.Fields, world.Field{Name: "badges", Kind: world.KStringList, Child: true})
+		}
+		k.people.GrantSymbols(k.prof)
+		k.prof.AddSymbol("nick", ast.NodeTypeString)
+		if feat.childIdx {
+			k.prof.AddSetIndex(k.prof.AddSetSymbol("badges", ast.NodeTypeString))
+		}
 	}
-	k.prof = world.NewStore(&world.Spec{Parent: k.people, ChildPath: []string{"prof"}, Extended: true, Fields: []world.Field{
-		{Name: "name", Kind: world.KString}, {Name: "roles", Kind: world.KStringList}, {Name: "org", Kind: world.KStringP},
-		{Name: "nick", Kind: world.KStringP, Child: true}}})
-	if feat.childIdx {
-		k.prof.Spec.Fields = append(k.prof.Spec.Fields, world.Field{Name: "badges", Kind: world.KStringList, Child: true})
-	}
-	k.people.GrantSymbols(k.prof)
-	k.prof.AddSymbol("nick", ast.NodeTypeString)
-	if feat.childIdx {
-		k.prof.AddSetIndex(k.prof.AddSetSymbol("badges", ast.NodeTypeString))
+	// registration order of the child stores matters to the parent's fan-out (an extended store reports every
+	// parent entity as its own)
+	if feat.extFirst {
+		mkProf()
+		mkMgr()
+	} else {
+		mkMgr()
+		mkProf()
 	}
 	if feat.childLinks {
 		symMP := k.mgr.AddFkSetSymbol("mplaces", k.places)
